@@ -2,7 +2,7 @@
    shape : list Z is the cube's array shape; raw the user's index item (tuple entries);
    cube_getitem is the transcription of NDCubeSlicingMixin.__getitem__ composed with the dependency
    models of numpy indexing (np_axis_sel) and SlicedLowLevelWCS (wcs_axis_sel). *)
-From NDV Require Import M_Slicing P_Slicing P_SlicingChain.
+From NDV Require Import M_Slicing P_Slicing P_SlicingChain P_SlicingIdentity.
 
 (* None / newaxis anywhere in the item is rejected with IndexError *)
 Theorem C01_none_rejected : forall shape raw, In INone raw -> cube_getitem shape raw = Err EIndex.
@@ -46,6 +46,15 @@ Theorem C01_chain : forall raws shape ss, Forall (fun n => 0 <= n) shape -> chai
   forall (T : Type) (W : list Z -> T) (k : list Z), W (chain_wcs ss k) = W (chain_src ss k).
 Proof. exact chain_elementwise. Qed.
 Print Assumptions C01_chain.
+
+(* the empty item (cube[()], cube[...], cube[:]) is the identity: every axis kept whole, offset 0, same shape, and
+   every element is its own source element *)
+Theorem C01_identity : forall shape, Forall (fun n => 0 <= n) shape ->
+  exists r, cube_getitem shape [] = Ok r /\ dsel r = whole shape /\
+            wsel r = map (fun _ => (0, false)) shape /\ wshape r = shape /\
+            forall k, length k = length shape -> src_index (dsel r) k = k.
+Proof. exact getitem_identity. Qed.
+Print Assumptions C01_identity.
 
 Example C01_nonvacuous :
   exists r, cube_getitem [4; 5; 6] [IInt (-1); IEllipsis; ISlice (Some (-2)) (Some 99) None] = Ok r /\
